@@ -343,9 +343,10 @@ class TermCtx:
         self.resolved_calls = 0
 
     def analysis(self, fi: FuncInfo) -> "FuncAnalysis":
-        if fi.qual not in self._fa:
-            self._fa[fi.qual] = FuncAnalysis(self, fi)
-        return self._fa[fi.qual]
+        k = (fi.qual, id(fi.node))  # views of one function (sa/normalise.py) share its name, not its statements
+        if k not in self._fa:
+            self._fa[k] = FuncAnalysis(self, fi)
+        return self._fa[k]
 
 
 class Def:
